@@ -11,7 +11,10 @@ EXPLANATION = (
     "collection and the dying index share a data root other than the bare receiver. R2 (fresh index only when the free list is empty): "
     "every modification of the `max_id` counter (atomic RMW, helper that does one, or a store through get_mut) sits in the failure "
     "fallback of a free-list pop (closure passed to Option::unwrap_or_else/or_else on the pop result, or the None edge of a match on it). "
-    "On the tree before fix fbc41d8 R1 reports Allocator::kill: path die -> loop head -> is_alive false -> return Err bypasses the extend."
+    "R4 (recycled prefix counts only elements that died): in a body that kills a batch parameter in a loop, a recycle site fed by the "
+    "whole batch is unreachable from the rejection edge of the aliveness test, and a recycle site fed by a bounded part of the batch (range / take / "
+    "split_at) has an exclusive bound that is the loop's enumerate() counter of the rejected element, or a local all of whose non-constant "
+    "assignments happen after the element's death within the iteration. On the tree before fix fbc41d8 R1 reports Allocator::kill: path die -> loop head -> is_alive false -> return Err bypasses the extend."
 )
 LEVEL_TEXT = ("All CFG paths of the allocator's generic MIR: wherever an index's alive bit is cleared, every path to a normal return pushes onto "
               "the free list (this pairing rule found the genuine defect F1, fixed in fbc41d8), and the fresh-index counter is only touched in "
@@ -25,6 +28,7 @@ def run(ctx):
     ctx.rule("C17-R1", "every index whose alive bit is cleared is pushed onto the free list on every path to return")
     ctx.rule("C17-R1b", "the recycled collection shares a data root with the dying index")
     ctx.rule("C17-R2", "the fresh-index counter is bumped only where a free-list pop failed")
+    ctx.rule("C17-R4", "a batch kill recycles only elements that died: the bound of the recycled prefix counts completed kills")
     ctx.rule("C17-R3", "no index is lost in merge: every pending creation becomes alive or is reported dead (and then recycled by R1)")
     for cfg in (["A"] if ctx.tier == "quick" else ["A", "F", "N", "FN"]):
         facts = ctx.facts(cfg)
@@ -60,6 +64,7 @@ def run(ctx):
                            "" if shared else "could not relate the recycled collection to the dying index (roots %s)" % sorted(map(repr, droots)))
         ctx.floor("C17-R1", "death sites in the allocator", nd, 2)
         _alloc_rules.merge_accounting(ctx, facts, model, {'revive': 'C17-R3'})
+        r4(ctx, facts, model)
         n, _ = _alloc_rules.fresh_only_after_failed_pop(ctx, facts, "C17-R2")
         ctx.floor("C17-R2", "counter bump sites", n, 2)
 
@@ -72,3 +77,88 @@ def nontrivial_roots(b, org):
         elif r[0] == "call":
             out.add(r)
     return out
+
+
+RANGE_EXCL = {"std::ops::RangeTo", "std::ops::Range"}
+RANGE_INCL = {"std::ops::RangeToInclusive", "std::ops::RangeInclusive"}
+
+
+def r4(ctx, facts, model):
+    from ..summaries import AliveClass, entity_of_index
+    alive = AliveClass(facts)
+    for b in model.bodies:
+        deaths = model.death_sites(b)
+        if not deaths:
+            continue
+        # loops over a batch parameter
+        loops = []
+        for nbb, nt in b.calls():
+            if nt["callee"].get("path") == "std::iter::Iterator::next" and any(r[0] == "param" and r[1] >= 2 and not r[2] for r in b.roots(b.arg_origin(nbb, 0))):
+                for ve in b.variant_edges(lambda so: so == ("call", nbb, ())):
+                    if ve["edges"].get("Some"):
+                        loops.append((nbb, ve["edges"]["Some"][1]))
+        if not loops:
+            continue
+        nbb, some_t = loops[0]
+        counter = ("call", nbb, ("as Some", "0", "0"))
+        dblocks = [bb for bb, _ in deaths]
+        # rejection edges: false edges of is_alive tests on the current element
+        xs = {entity_of_index(b, b.arg_origin(bb, 1)) for bb, _ in deaths}
+        rej = []
+        for x in xs:
+            if x is not None:
+                rej += [e["false_edge"][1] for e in alive.guard_edges(b, x)]
+        for i, (rbb, rt) in enumerate(model.recycle_sites(b)):
+            key = "%s recycle #%d" % (b.path, i)
+            deps = set()
+            for a in rt["args"][1:]:
+                deps |= b.deps(b.operand_origin(a))
+            if not any(d[0] == "param" and d[1] >= 2 for d in deps):
+                continue
+            bounds = []
+            for d in deps:
+                if d[0] == "agg":
+                    rv = b.blocks[d[1]]["stmts"][d[2]]["rv"]
+                    if rv.get("adt") in RANGE_EXCL | RANGE_INCL and rv["ops"]:
+                        bounds.append((rv["adt"], b.operand_origin(rv["ops"][-1]), b.blocks[d[1]]["stmts"][d[2]].get("line")))
+                elif d[0] == "call":
+                    c = b.term(d[1])["callee"]
+                    if c.get("name") in ("take", "split_at", "split_at_mut", "get", "take_while") and len(b.term(d[1])["args"]) >= 2:
+                        a1 = b.term(d[1])["args"][1]
+                        if isinstance(a1, dict) and a1.get("ty") == "usize":
+                            bounds.append(("call " + c["name"], b.operand_origin(a1), b.term(d[1])["line"]))
+            if not bounds:
+                ok = not any(rbb in b.reachable(t) for t in rej)
+                ctx.ob("C17-R4", key + " (whole batch) unreachable after a rejected element", ok, b.loc(rbb),
+                       "" if ok else "the whole batch is pushed onto the free list on a path where an element was rejected: indices of entities that were "
+                       "not killed (still alive, or already free) get recycled and are handed out a second time")
+                continue
+            for kind, e, line in bounds:
+                ok = False
+                why = ""
+                if kind in RANGE_INCL:
+                    why = "inclusive range bound: the rejected element itself is recycled"
+                elif e == counter:
+                    ok = True
+                elif e[0] in ("phi",) or (e[0] == "op"):
+                    # a count: every non-constant assignment must come after the death of the element within the iteration
+                    locs = [e[1]] if e[0] == "phi" else []
+                    defs_ok = bool(locs)
+                    for l in locs:
+                        for d in b.defs().get(l, []):
+                            if d[0] == "stmt" and d[4]["k"] == "use" and "const" in (d[4]["ops"][0] if isinstance(d[4]["ops"][0], dict) else {}):
+                                continue
+                            if d[0] == "stmt" and d[4]["k"] == "use" and b.operand_origin(d[4]["ops"][0]) == counter:
+                                continue   # assigning the (exclusive) counter of the current element is always right
+                            if d[1] in b.reachable(some_t, stop=dblocks) and d[1] not in dblocks:
+                                defs_ok = False
+                                why = "the count bounding the recycled prefix is advanced (line %s) before the element's death: a rejected element is counted as killed" % (
+                                    b.blocks[d[1]]["stmts"][d[2]].get("line") if d[2] >= 0 else b.term(d[1])["line"])
+                    ok = defs_ok
+                    if not ok and not why:
+                        why = "bound of the recycled prefix is computed from the loop counter (%r), not the counter itself" % (e,)
+                else:
+                    why = "cannot relate the bound of the recycled prefix to the number of completed kills (%r)" % (e,)
+                    ctx.ob("C17-R4", key + " prefix bound counts completed kills", "undetermined", b.loc(line=line), why)
+                    continue
+                ctx.ob("C17-R4", key + " prefix bound counts completed kills", ok, b.loc(line=line), why)
